@@ -23,6 +23,14 @@ Checks (all on the observables the property names):
       num_different_preferences ...) on the autocorrected instance must equal the values computed from the ballot
       lines; in ~12% of the ordinal cases the parsed object is continued with append_order / append_order_list and
       re-observed (orders = preferences, first-occurrence list, multiplicity = sums + 1 per appended order, counters)
+  (7) round-5 lessons: names / category names that START with blanks or a tab after the canonical ": " (distinct from the
+      unpadded name), inner double blanks / tabs / U+00A0, and header lines "NAME <id> : x" that the patterns do not
+      match; in 25% of the cases ANOTHER file sharing names is parsed first (autocorrect, own instance, sometimes
+      raising) inside the same worker call, and every case parses its content four times into fresh instances after
+      spoiling the containers of the previous instance (class-level / default-argument state shows inside ONE case);
+      sanity.* and properties.basic are called (basic twice) between two common.snapshot()s; continuations interleave
+      recompute_cardinality_param / infer_type / flatten_strict / full_profile / vote_map (results poisoned in place,
+      snapshot-compared) with append_order / append_order_list / append_order_array (numpy int64 rows)
 """
 import os
 import random
@@ -32,6 +40,7 @@ import tempfile
 
 from core import proto, oracle
 from .common import case, guarded
+from . import common
 from . import c01, c08
 
 ID = "C16"
@@ -82,7 +91,14 @@ T = proto.text
 U = proto.untext
 TYPES = ["soc", "soi", "toc", "toi"]
 NAME_POOL = ["X", "X", "X", "X__1", "X__1", "X__2", "X__1__1", "", "", "__1", "Y", "Y__1", "Z z"]
-DISTINCT_NAMES = ["X", "X__1", "X__2", "X__1__1", "", "__1", "Y", "Y__1", "Z z", "A", "B"]
+DISTINCT_NAMES = ["X", "X__1", "X__2", "X__1__1", "", "__1", "Y", "Y__1", "Z z", "A", "B",
+                  " X", "  X", "\tX", " Y", "Z  z", "Z\tz", "Z\u00a0z", "\u00a0X", " X__1"]
+# names that differ only by blanks / a tab after the canonical ": " of the header line, or by inner whitespace
+PADDED_POOLS = [["Ann", " Ann", "Ann", "  Ann"], ["Ann", "\tAnn", " Ann"], ["X", " X", "X__1", " X__1"],
+                ["Z z", "Z  z", "Z\tz", "Z\u00a0z", "Z z"], [" X", " X", "  X", "X"], ["", " __1", "__1", ""]]
+# header lines the name patterns do NOT match (blanks between the id and the colon): they define no name
+NO_MATCH = ["# ALTERNATIVE NAME 3 : X", "# ALTERNATIVE NAME 1 :X", "# ALTERNATIVE NAME 2\t: Ann", "# CATEGORY NAME 1 : X",
+            "# CATEGORY NAME 2  :  Ann", "# ALTERNATIVE NAME  4: X", "# CATEGORY NAME  1: X"]
 # multiplicities / counts beyond the range where a double is exact (2**53), and sums that cross it
 BIG = [2 ** 53 - 1, 2 ** 53, 2 ** 53 + 1, 2 ** 53 + 1, 2 ** 53 + 3, 3 * 2 ** 53 + 7, 10 ** 17 + 3, 2 ** 64 - 1,
        2 ** 64 + 1, 10 ** 30 + 7, 2 ** 52, 2 ** 52 + 1, 2 ** 53 - 2, 1, 3]
@@ -154,9 +170,30 @@ def pad(rng, line, dirty):
 
 def name_line(rng, prefix, i, name, dirty):
     sep = rng.choice([": ", ": ", ": ", ":"]) if dirty else ": "
-    if name.startswith(" "):
-        sep = ": "
+    if name[:1].isspace():
+        sep = ": "             # canonical separator: the pattern drops at most ONE blank, the rest belongs to the name
     return "# %s NAME %d%s%s" % (prefix, i, sep, name)
+
+
+MAINT = ["recompute_cardinality_param", "infer_type", "flatten_strict", "full_profile", "vote_map"]
+
+
+def prior_content(rng, kind, dt, alts, cats):
+    """another file that shares names with the content under test; it is parsed (autocorrect=True) into its OWN
+    instance earlier in the same worker call.  [kind, data_type, text, entry]"""
+    pk = kind if rng.random() < 0.7 else ("cat" if kind == "ord" else "ord")
+    pdt = dt if pk == kind else ("cat" if pk == "cat" else "soc")
+    lines = []
+    names = [n for _, n in alts] or ["X"]
+    cnames = [n for _, n in cats] or ["X"]
+    if pk == "cat":
+        for k in range(rng.randint(1, 3)):
+            lines.append("# CATEGORY NAME %d: %s" % (k + 1, rng.choice(cnames + names)))
+    for k in range(rng.randint(1, 4)):
+        nm = rng.choice(names + cnames)
+        lines.append("# ALTERNATIVE NAME %d: %s" % (k + 1, nm if not nm[:1].isspace() else nm))
+    lines.append(rng.choice(["1: 1", "2: 1", "1: 1\n3: 1", "oops", "1: x", "1:2:3"]))     # the last three raise
+    return [pk, pdt, "\n".join(lines) + "\n", rng.choice(["file", "str"])]
 
 
 def float_like(n):
@@ -187,6 +224,9 @@ def gen_struct(rng, kind, clean):
             return [(a, rng.choice(pool)) for a in named]
         if rng.random() < 0.15:
             pool = rng.choice(SUFFIX_POOLS)
+            return [(a, rng.choice(pool)) for a in named]
+        if rng.random() < 0.15:
+            pool = rng.choice(PADDED_POOLS)
             return [(a, rng.choice(pool)) for a in named]
         pool = rng.choice([NAME_POOL, ["X", "X", "X__1"], ["X", "X__1", "X__2", "X__3"], ["", "__1", "__2"],
                            ["X", "X__1", "X__1__1"]])
@@ -262,6 +302,8 @@ def gen_struct(rng, kind, clean):
         hdr = hdr + cnt + names
     if dirty and rng.random() < 0.05:
         hdr.append(["h", rng.choice(["# ALTERNATIVE NAME x: y", "# CATEGORY NAME: none", "#", "# SOMETHING: 1"]), 0, ""])
+    if rng.random() < 0.08:
+        hdr.insert(rng.randrange(len(hdr) + 1), ["h", rng.choice(NO_MATCH), 0, ""])
     cont = None
     if kind == "ord" and rng.random() < 0.12:
         def strict_of(b):
@@ -270,22 +312,32 @@ def gen_struct(rng, kind, clean):
         for _ in range(rng.randint(1, 3)):
             b = rng.choice(pool) if rng.random() < 0.6 else c01.rand_order(rng, ids + [max(ids) + 1])
             picks.append([list(cl) for cl in b])
-        if rng.random() < 0.5:
+        maint = [rng.choice(MAINT) for _ in range(rng.choice([0, 1, 2, 3]))]
+        r = rng.random()
+        if r < 0.4:
             flat = [strict_of(b) or rng.sample(ids, rng.randint(1, len(ids))) for b in picks]
-            cont = ["append_order", flat]
+            cont = ["append_order", flat, maint]
+        elif r < 0.55:
+            width = rng.randint(1, len(ids))
+            cont = ["append_order_array", [rng.sample(ids + [max(ids) + 1], width) for _ in picks], maint]
         else:
-            cont = ["append_order_list", picks]
+            cont = ["append_order_list", picks, maint]
+    prior = None
+    if rng.random() < 0.25:
+        prior = prior_content(rng, kind, dt, alts, cats)
     eol = rng.choice(["\n", "\n", "\n", "\r\n", "\r"])
-    return {"kind": kind, "cont": cont, "dt": dt, "hdr": hdr, "body": body, "eol": eol, "final": rng.random() < 0.85,
+    return {"kind": kind, "cont": cont, "prior": prior, "dt": dt, "hdr": hdr, "body": body, "eol": eol, "final": rng.random() < 0.85,
             "clean": bool(clean), "malformed": malformed}
 
 
-def fixed_struct(kind, alt_names, cat_names, body, dt=None, counts=None, cont=None):
+def fixed_struct(kind, alt_names, cat_names, body, dt=None, counts=None, cont=None, prior=None, extra_hdr=None):
     """hand-made content: names = list of (id, name); body = list of (mult, ballot)"""
     dt = "cat" if kind == "cat" else (dt or "soc")
     hdr = [["h", "# FILE NAME: f." + dt, 0, ""], ["h", "# DATA TYPE: " + dt, 0, ""]]
     for c in counts or []:
         hdr.append(["h", c, 0, ""])
+    for x in extra_hdr or []:
+        hdr.append(["h", x, 0, ""])
     for c, n in cat_names:
         hdr.append(["c", "# CATEGORY NAME %d: %s" % (c, n), c, n])
     for a, n in alt_names:
@@ -296,7 +348,7 @@ def fixed_struct(kind, alt_names, cat_names, body, dt=None, counts=None, cont=No
         txt = cat_ballot_text(rng, b) if kind == "cat" else ord_ballot_text(rng, b)
         lines.append(["%d: %s" % (mult, txt), mult, [list(c) for c in b]])
     return {"kind": kind, "dt": dt, "hdr": hdr, "body": lines, "eol": "\n", "final": True, "clean": False,
-            "malformed": False, "cont": cont}
+            "malformed": False, "cont": cont, "prior": prior}
 
 
 def seq_over(pool, n):
@@ -348,13 +400,37 @@ def generate(tier, seed):
                     out.append(mk_case(st, exh=4))
         for x, y in ((2 ** 52, 2 ** 52 + 1), (2 ** 53 - 1, 2), (2 ** 53, 1), (2 ** 52 + 1, 2 ** 52 + 2)):
             out.append(mk_case(fixed_struct(kind, [(1, "a"), (2, "b")], cn, [(x, b1), (y, b1), (1, b1)], dt="soc"), exh=4))
+    # names that begin with blanks / a tab after the canonical ": " are different names; "id :" defines no name
+    for names in seq_over(["Ann", " Ann", "  Ann", "\tAnn"], 3):
+        if not names:
+            continue
+        an = [(k + 1, nm) for k, nm in enumerate(names)]
+        for extra in ([], ["# ALTERNATIVE NAME 9 : Ann", "# CATEGORY NAME 9 : Ann"]):
+            st = fixed_struct("ord", an, [], [(2, [[1], [2]]), (3, [[2], [1]])], extra_hdr=extra,
+                              counts=["# NUMBER ALTERNATIVES: %d" % len(an), "# NUMBER VOTERS: 5", "# NUMBER UNIQUE ORDERS: 2"])
+            st["clean"] = len(set(names)) == len(names)
+            out.append(mk_case(st, exh=6))
+            out.append(mk_case(fixed_struct("cat", an, [(1, "Yes"), (2, " Yes")], [(2, [[1], [2]]), (3, [[1], [2]])],
+                                            extra_hdr=extra), exh=6))
+            out.append(mk_case(fixed_struct("cat", [(1, "a"), (2, " a")], an, [(1, [[1]] + [[] for _ in an[1:]])] * 2,
+                                            extra_hdr=extra), exh=6))
+    # an earlier autocorrect parse of ANOTHER file sharing names (same worker call, its own instance), also one that raises
+    for names in seq_over(["X", "X__1"], 2):
+        an = [(k + 1, nm) for k, nm in enumerate(names)]
+        for ptext in ("# ALTERNATIVE NAME 1: X\n# ALTERNATIVE NAME 2: X\n1: 1\n", "# ALTERNATIVE NAME 7: X__1\n# ALTERNATIVE NAME 8: X\noops\n",
+                      "# CATEGORY NAME 1: X\n# CATEGORY NAME 2: X\n# ALTERNATIVE NAME 1: X\n1: 1\n"):
+            for pk in ("ord", "cat"):
+                pr = [pk, "soc" if pk == "ord" else "cat", ptext, "str"]
+                out.append(mk_case(fixed_struct("ord", an, [], [(2, [[1], [2]])], prior=pr), exh=7))
+                out.append(mk_case(fixed_struct("cat", an, an, [(2, [[1], [2]])], prior=pr), exh=7))
     # repeated lines, then the parsed object is extended: both names of the ballot list must follow
     bl2 = [(2, [[1], [2]]), (3, [[2], [1]]), (1, [[1, 2]])]
     for body in seq_over(bl2, 3):
         if not body:
             continue
-        for cont in (["append_order", [[1, 2]]], ["append_order", [[2, 1], [3, 1, 2]]],
-                     ["append_order_list", [[[1, 2]], [[1], [2]]]], ["append_order_list", [[[2], [1, 3]]]]):
+        for cont in (["append_order", [[1, 2]], ["vote_map"]], ["append_order", [[2, 1], [3, 1, 2]], ["recompute_cardinality_param", "full_profile"]],
+                     ["append_order_list", [[[1, 2]], [[1], [2]]], ["flatten_strict", "infer_type"]],
+                     ["append_order_list", [[[2], [1, 3]]], []], ["append_order_array", [[1, 2], [2, 1], [1, 2]], ["recompute_cardinality_param"]]):
             out.append(mk_case(fixed_struct("ord", [(1, "a"), (2, "b")], [], list(body), dt="toi", cont=cont), exh=5))
     if not quick:
         bl = [(1, [[1], [2]]), (5, [[1], [2]]), (1, [[2, 1]]), (5, [[2, 1]])]
@@ -421,16 +497,62 @@ def _basic(kind, inst):
     return {k: int(v) for k, v in out.items()}
 
 
+def _poison_result(res):
+    """the caller owns what an accessor returns: spoil it in place"""
+    if isinstance(res, list):
+        res.append(((424242,),))
+        res.reverse()
+        del res[1:]
+    elif isinstance(res, dict):
+        res.clear()
+        res[((424242,),)] = 99
+
+
+def _maint(inst, name, impure):
+    """a maintenance / accessor call in the middle of a history: must leave the content of the instance alone"""
+    if name == "full_profile" and inst.num_voters > 5000:
+        return
+    before = common.snapshot(inst)
+    res = getattr(inst, name)()
+    _poison_result(res)
+    df = common.snap_diff(before, common.snapshot(inst))
+    if df:
+        impure.append("%s(): %s" % (name, df))
+
+
 def _continue(inst, cont):
-    fn, orders = cont
+    fn, orders, maint = cont
+    impure = []
+    for name in maint:
+        _maint(inst, name, impure)
     if fn == "append_order":
-        for o in orders:
+        for k, o in enumerate(orders):
             inst.append_order(list(o))
+            if k == 0 and maint:
+                _maint(inst, maint[0], impure)
+    elif fn == "append_order_array":
+        import numpy as np
+        inst.append_order_array(np.array(orders))
     else:
         inst.append_order_list([tuple(tuple(cl) for cl in o) for o in orders])
-    res = {"dump": _dump("ord", inst)}
+    res = {"dump": _dump("ord", inst), "impure": impure}
     res.update(_views("ord", inst))
     return res
+
+
+def _poison_instance(kind, inst):
+    """the instance is finished with: spoil every container it owns, so that state shared with LATER instances
+    (class attributes, mutable defaults) shows up in the following parses of this case"""
+    inst.alternatives_name[10 ** 9] = "X"
+    inst.alternatives_name[10 ** 9 + 1] = "X__1"
+    inst.reserved_names.add("X")
+    inst.reserved_names.add("X__2")
+    inst.multiplicity[((424242,),)] = 99
+    inst.preferences.append(((424242,),))
+    if kind == "cat":
+        inst.categories_name[10 ** 9] = "X"
+    else:
+        inst.orders.append(((424243,),))
 
 
 def _one(kind, dt, text, entry, d, autocorrect, cont=None):
@@ -444,11 +566,28 @@ def _one(kind, dt, text, entry, d, autocorrect, cont=None):
     res = {"dump": _dump(kind, inst)}
     res.update(_views(kind, inst))
     if autocorrect:
+        before = common.snapshot(inst)
         res["sanity"] = _sanity(kind, inst)
         res["basic"] = guarded(_basic, kind, inst)
+        res["basic2"] = guarded(_basic, kind, inst)
+        df = common.snap_diff(before, common.snapshot(inst))
+        res["impure"] = ["sanity / properties.basic: " + df] if df else []
         if cont and kind == "ord":
             res["cont"] = guarded(_continue, inst, cont)
+    _poison_instance(kind, inst)
     return res
+
+
+def _prior(prior, d):
+    pk, pdt, text, entry = prior
+    inst = _new(pk)
+    if entry == "file":
+        p = os.path.join(d, "prior." + pdt)
+        _write_raw(p, text)
+        inst.parse_file(p, autocorrect=True)
+    else:
+        inst.parse_str(text, pdt, autocorrect=True)
+    return len(inst.alternatives_name)
 
 
 def impl(c):
@@ -458,6 +597,9 @@ def impl(c):
     d = tempfile.mkdtemp(prefix="c16_", dir=WORK)
     try:
         out = {}
+        st = c["tags"].get("struct") or {}
+        if st.get("prior"):
+            out["prior"] = guarded(_prior, st["prior"], d)      # may raise by construction; its own instance
         for entry in ("file", "str"):
             for au in (True, False):
                 out[entry + ("T" if au else "F")] = guarded(_one, kind, dt, text, entry, d, au,
@@ -610,15 +752,17 @@ def check_basic(kind, st, o, got):
 
 def check_cont(st, o, got):
     """after append_order / append_order_list on the autocorrected instance: same normal form, one more voter per order"""
-    fn, orders = st["cont"]
+    fn, orders = st["cont"][:2]
     if got[0] != 0:
         return "%s on the autocorrected instance raised %r" % (fn, got[1:])
+    if got[1]["impure"]:
+        return "the parsed instance was modified by " + "; ".join(got[1]["impure"])
     d = split_dump("ord", got[1]["dump"])
     if got[1]["prefs"] != d["ballots"]:
         return "after %s: instance.preferences lists %r but instance.orders lists %r" % (fn, got[1]["prefs"], d["ballots"])
     want, first = {}, []
     for mult, b in [(b[1], b[2]) for b in st["body"] if b[1] is not None] + \
-                   [(1, [[a] for a in x] if fn == "append_order" else x) for x in orders]:
+                   [(1, [[a] for a in x] if fn != "append_order_list" else x) for x in orders]:
         e = proto.enc(b)
         if e not in want:
             first.append(e)
@@ -692,9 +836,11 @@ def judge(c, r, mres):
         if rr:
             return where + ": " + rr
         if st is not None and not st.get("malformed"):
-            rr = check_basic(kind, st, o, rT[1]["basic"])
+            rr = check_basic(kind, st, o, rT[1]["basic"]) or check_basic(kind, st, o, rT[1]["basic2"])
             if rr:
                 return where + ": " + rr
+            if rT[1]["impure"]:
+                return where + ": the parsed instance was modified by " + "; ".join(rT[1]["impure"])
             if "cont" in rT[1]:
                 rr = check_cont(st, o, rT[1]["cont"])
                 if rr:
@@ -753,6 +899,12 @@ def stats(c, r, m):
             lab.append("ord preferences is orders=%d" % int(bool(r["strT"][1].get("alias"))))
             if "cont" in r["strT"][1]:
                 lab.append("ord continued with %s" % st["cont"][0])
+                for nm in st["cont"][2]:
+                    lab.append("ord maintenance call %s" % nm)
+        if st.get("prior"):
+            lab.append("earlier parse of another file in the same call: %s" % ("ok" if r["prior"][0] == 0 else "raises"))
+        if any(h[0] in "ac" and h[3][:1].isspace() for h in st["hdr"]):
+            lab.append("name starting with blank/tab")
         nb = len([b for b in st["body"] if b[1] is not None])
         lab.append("ballot lines=%s" % (nb if nb <= 5 else ">5"))
         ra, rT = r["strT"][1]["dump"], r["strF"]
